@@ -1,6 +1,6 @@
 // verifh: correspondence harness. Runs the implementation (/repo, via `replace rare => /repo`)
 // on generated inputs and writes Coq case files that evaluate the model on the same inputs.
-package main
+package lib
 
 import (
 	"encoding/hex"
@@ -9,7 +9,6 @@ import (
 	"fmt"
 	"os"
 	"path/filepath"
-	"sort"
 	"strings"
 )
 
@@ -30,11 +29,11 @@ func (r *Rng) Intn(n int) int {
 	}
 	return int(r.U64() % uint64(n))
 }
-func (r *Rng) Range(lo, hi int) int { return lo + r.Intn(hi-lo+1) } // inclusive
-func (r *Rng) Bool() bool           { return r.U64()&1 == 1 }
+func (r *Rng) Range(lo, hi int) int     { return lo + r.Intn(hi-lo+1) } // inclusive
+func (r *Rng) Bool() bool               { return r.U64()&1 == 1 }
 func (r *Rng) Chance(num, den int) bool { return r.Intn(den) < num }
-func (r *Rng) Fork() *Rng           { return &Rng{s: r.U64()} }
-func Pick[T any](r *Rng, xs []T) T  { return xs[r.Intn(len(xs))] }
+func (r *Rng) Fork() *Rng               { return &Rng{s: r.U64()} }
+func Pick[T any](r *Rng, xs []T) T      { return xs[r.Intn(len(xs))] }
 
 // ---- Coq printing helpers ----
 func H(b []byte) string  { return "\"" + hex.EncodeToString(b) + "\"" }
@@ -85,10 +84,6 @@ type Prop struct {
 	Shard  int
 }
 
-var props = map[string]*Prop{}
-
-func register(p *Prop) { props[p.Name] = p }
-
 type Meta struct {
 	Property           string         `json:"property"`
 	Seed               uint64         `json:"seed"`
@@ -103,7 +98,7 @@ type Meta struct {
 	ShardSize          int            `json:"shard_size"`
 }
 
-func writeCases(p *Prop, cases []Case, out string, meta *Meta) error {
+func WriteCases(p *Prop, cases []Case, out string, meta *Meta) error {
 	if err := os.MkdirAll(out, 0o755); err != nil {
 		return err
 	}
@@ -173,34 +168,25 @@ func writeCases(p *Prop, cases []Case, out string, meta *Meta) error {
 	return os.WriteFile(filepath.Join(out, "meta.json"), mb, 0o644)
 }
 
-func main() {
-	if len(os.Args) < 3 {
-		names := []string{}
-		for k := range props {
-			names = append(names, k)
-		}
-		sort.Strings(names)
-		fmt.Fprintf(os.Stderr, "usage: verifh gen|replay <prop> [flags]; props: %v\n", names)
+// Main is the entry point of a per-property harness binary:  <bin> gen|replay [flags]
+func Main(p *Prop) {
+	if len(os.Args) < 2 {
+		fmt.Fprintf(os.Stderr, "usage: %s gen|replay --out DIR [--seed S --n N --tier T --file F]\n", p.Name)
 		os.Exit(2)
 	}
-	mode, name := os.Args[1], os.Args[2]
-	p := props[name]
-	if p == nil {
-		fmt.Fprintf(os.Stderr, "unknown property %s\n", name)
-		os.Exit(2)
-	}
+	mode := os.Args[1]
 	fs := flag.NewFlagSet("verifh", flag.ExitOnError)
 	seed := fs.Uint64("seed", 1, "seed")
 	n := fs.Int("n", 300, "number of cases")
 	tier := fs.String("tier", "quick", "tier")
 	out := fs.String("out", "", "output directory")
-	file := fs.String("file", "", "replay file (JSON with a `case` member)")
-	fs.Parse(os.Args[3:])
+	file := fs.String("file", "", "replay file (JSON with a `case` member or a `cases` list)")
+	fs.Parse(os.Args[2:])
 	if *out == "" {
 		fmt.Fprintln(os.Stderr, "--out required")
 		os.Exit(2)
 	}
-	meta := &Meta{Property: name, Seed: *seed, Tier: *tier, Rule: p.Rule}
+	meta := &Meta{Property: p.Name, Seed: *seed, Tier: *tier, Rule: p.Rule}
 	var cases []Case
 	switch mode {
 	case "gen":
@@ -235,7 +221,7 @@ func main() {
 		fmt.Fprintln(os.Stderr, "mode must be gen or replay")
 		os.Exit(2)
 	}
-	if err := writeCases(p, cases, *out, meta); err != nil {
+	if err := WriteCases(p, cases, *out, meta); err != nil {
 		fmt.Fprintln(os.Stderr, err)
 		os.Exit(2)
 	}
